@@ -454,7 +454,7 @@ func (w *world) dumpTerm() (string, []hint, *scheduler.VerifState) {
 		w.ct.hung = true
 		return w.lastNullDelta, nil, nil
 	}
-	var hints []hint
+	var hints, lateHints []hint
 	var pqs, changedScqs []string
 	newScqs := map[string]string{}
 	newHints := map[string]bool{}
@@ -501,6 +501,21 @@ func (w *world) dumpTerm() (string, []hint, *scheduler.VerifState) {
 				if wk.HasLastInv {
 					last = g.Some(nList(keysOf(wk.LastInvocation)))
 				}
+				if wk.HasTask {
+					// how many leading stickiness start times were retained by the latest assignment
+					retained := 0
+					for _, st := range wk.StickinessTimes {
+						if st == d.Now {
+							break
+						}
+						retained++
+					}
+					hk := fmt.Sprintf("retained%d@%s/%d/%d/%s/%v", retained, pq.InstanceNamePrefix, plat, scq.SizeClass, wk.Key, wk.TaskOperations)
+					newHints[hk] = true
+					if !w.prevHints[hk] {
+						lateHints = append(lateHints, hint{op: 4000 + retained, w: workerJSON{SK: sk, H: h, T: t}})
+					}
+				}
 				workers = append(workers, g.App("mkDWorker", "("+g.N(h)+", "+g.N(t)+")", task, optZ(wk.Cleanup), g.Bool(wk.Terminating), last, g.Bool(wk.Waiting), zList(wk.StickinessTimes)))
 			}
 			for _, iv := range scq.Invocations {
@@ -539,6 +554,7 @@ func (w *world) dumpTerm() (string, []hint, *scheduler.VerifState) {
 	}
 	w.prevScqs = newScqs
 	w.prevHints = newHints
+	hints = append(hints, lateHints...)
 	var ops []string
 	newOps := map[int]string{}
 	for _, o := range d.Operations {
